@@ -144,6 +144,17 @@ def run(tier, seed):
         forms_t = pre[:pos] + [macro] + pre[pos:] + [use]
         text = "\n".join(forms_t) + rng.choice(["", "\n"])
         cases.append({"fault": "template-identifier", "context": "user-macro", "text": text, "nforms": len(forms_t), "offender": None, "ndefs": 0})
+    # an unbound identifier that is itself an operand of a macro use (the expansion IS the user's identifier): it keeps its own location
+    for k in range(per_cell * 2):
+        name = "nosuch%d" % rng.randint(1000, 9999)
+        shape = rng.choice(["(and #t %s)", "(and 1 2 %s)", "(or #f %s)", "(or #f #f %s)", "(cond (#f 1) (%s))", "(begin %s)", "(when #t 1 %s)", "(let () %s)", "(let* ((a 1)) %s)",
+                            "(ident %s)", "(ident (ident %s))", "(case 1 ((1) %s))", "(unless #f %s)", "(cond (else %s))", "(list 1 (and #t %s))", "(if (or #f %s) 1 2)"])
+        pre = ["(define-syntax ident (syntax-rules () ((ident x) x)))"] + ["(define filler%d %d)" % (i, i) for i in range(rng.choice([0, 2, 9, 25]))]
+        rng.shuffle(pre)
+        body = shape % name
+        toks = [t.text for t in sxread.tokenize(body)]
+        text = "\n".join(pre) + "\n" + layout(toks, rng, rng.choice(["tight", "loose"])) + "\n"
+        cases.append({"fault": "unbound-read", "context": "macro-operand", "text": text, "nforms": len(pre) + 1, "offender": name, "ndefs": 0})
     bare = []
     for k in range(per_cell):
         body = rng.choice(["(unless #f 1 2)", "(case 3 ((1 2) 'a) (else 'b))", "(unless (car '(#f)) 'x 'y)", "(case 1 ((1) => car))"])
